@@ -137,6 +137,19 @@ def run_one(text):
         out['eval'] = 'py_error:' + type(e).__name__
     ARMED[0] = False
     out['frame_ok'] = (txn == txn0 and ds == ds0 and variables == var0 and ast.dump(tree) == dump0)
+    # same evaluation on a transaction whose date is a datetime.datetime and whose rows mix dates and raw strings
+    txn_b = mk_txn()
+    txn_b['date'] = datetime.datetime(2025, 3, 4, 10, 30, 5)
+    ds_b = {'rows': [{'item': 'Book', 'amount': 12.5, 'date': datetime.date(2025, 2, 27)}, {'item': 'Pen', 'amount': 3.0, 'date': 'pending'}]}
+    txn_b0, ds_b0 = copy.deepcopy(txn_b), copy.deepcopy(ds_b)
+    ARMED[0] = True
+    try:
+        EP.evaluate_transaction(text, txn_b, dict(variables), ds_b)
+    except BaseException:  # noqa
+        pass
+    ARMED[0] = False
+    if not (txn_b == txn_b0 and ds_b == ds_b0 and ast.dump(tree) == dump0 and type(txn_b['date']) is type(txn_b0['date'])):
+        out['frame_ok'] = False
     # ---- evaluate as a view filter ----
     PHASE[0] = 'view'
     ARMED[0] = True
